@@ -65,6 +65,7 @@ type KPlan struct {
 	Status    []uint32        `json:"init_status,omitempty"`
 	InitRules []uint32        `json:"init_rules,omitempty"` // rule ids installed before the run
 	PortID    uint32          `json:"port_id"`
+	SeqStart  uint32          `json:"seq_start,omitempty"` // sequence number the transport used last (fast-forward towards the uint32 wrap)
 	Ops       []KOp           `json:"ops"`
 	Tasks     [][]KOp         `json:"tasks,omitempty"` // concurrent phase (closers / senders)
 	Faults    []kern.ReqFault `json:"faults,omitempty"`
@@ -273,6 +274,9 @@ func genInit(r *core.Rng, p *KPlan) {
 	p.ReplySize = core.Pick(r, 32, 36, 40, 44, 44, 44, 48, 52, 64)
 	p.PortID = core.Pick(r, uint32(1), 4711, 1<<31, 1<<32-1, r.U32()|1)
 	p.Transport = r.Intn(2)
+	if r.Chance(1, 10) {
+		p.SeqStart = uint32(1<<32 - r.Range(1, 12)) // the counter wraps during this run
+	}
 	if r.Chance(1, 2) {
 		p.Status = make([]uint32, kern.NWords)
 		for i := range p.Status {
